@@ -63,6 +63,23 @@ def write(
         and adding any new nodes and skipping or overwriting existing nodes
         according to the ``mode`` argument.
     """
+    # unrooted nodes are given a temporary root while writing;
+    # they are returned unrooted, whether or not the write succeeds
+    items = data if isinstance(data,(list,tuple)) else [data]
+    unrooted = [x for x in items if isinstance(x,Node) and x._root is None]
+    try:
+        _write(filepath, data, mode, tree, emdpath)
+    finally:
+        for x in unrooted:
+            x._root = None
+
+def _write(
+    filepath,
+    data,
+    mode,
+    tree,
+    emdpath,
+    ):
     # parse mode
     writemode = ['w', 'write']
     overwritemode = ['o', 'overwrite']
